@@ -503,7 +503,9 @@ type OpInfo struct {
 // Propose calls the real CreateLeaf.
 func (w *World) Propose(n *Node, trx *transaction.Transaction, tag string) (accountant.Vertex, error) {
 	t := *trx
-	v, err := n.Book.CreateLeaf(w.Ctx, &t)
+	ctx, done := context.WithCancel(w.Ctx)
+	v, err := n.Book.CreateLeaf(ctx, &t)
+	done()
 	if err == nil {
 		w.Hist.Add(&v)
 	}
@@ -562,11 +564,14 @@ func (w *World) Deliver(n *Node, v *accountant.Vertex, tag string) error {
 	c := CloneVertex(v)
 	w.Hist.Add(c)
 	var err error
+	// as in a request handler, the context of the call ends when the call has returned
+	ctx, done := context.WithCancel(w.Ctx)
 	if n.Offer != nil {
-		err = n.Offer(w.Ctx, c)
+		err = n.Offer(ctx, c)
 	} else {
-		err = n.Book.AddLeaf(w.Ctx, c)
+		err = n.Book.AddLeaf(ctx, c)
 	}
+	done()
 	if IsParked(err) {
 		n.Orphans[v.Hash] = true
 	}
@@ -588,13 +593,17 @@ func errStr(err error) string {
 // CloneVertex deep copies a vertex (the ledger keeps the pointer it is given).
 func CloneVertex(v *accountant.Vertex) *accountant.Vertex {
 	c := *v
-	c.Signature = append([]byte(nil), v.Signature...)
-	c.Transaction.Data = append([]byte(nil), v.Transaction.Data...)
-	c.Transaction.IssuerSignature = append([]byte(nil), v.Transaction.IssuerSignature...)
-	c.Transaction.ReceiverSignature = append([]byte(nil), v.Transaction.ReceiverSignature...)
-	if v.Transaction.Data == nil {
-		c.Transaction.Data = nil
+	// (an absent slice stays absent, an empty one stays empty)
+	dup := func(b []byte) []byte {
+		if b == nil {
+			return nil
+		}
+		return append(make([]byte, 0, len(b)), b...)
 	}
+	c.Signature = dup(v.Signature)
+	c.Transaction.Data = dup(v.Transaction.Data)
+	c.Transaction.IssuerSignature = dup(v.Transaction.IssuerSignature)
+	c.Transaction.ReceiverSignature = dup(v.Transaction.ReceiverSignature)
 	return &c
 }
 
